@@ -106,7 +106,7 @@ def run(pid, tier):
     for a, b in pairs:
         others = [x for x in fixers if x not in (a, b)]
         cand = [d for d in docs if d[0].startswith("extra/") or d[0].startswith(a + "/") or d[0].startswith(b + "/")]
-        k = 4 if tier == "quick" else 40
+        k = 4 if tier == "quick" else len(cand)       # thorough: every candidate, so that any quick sample is a subset of it
         for name, data in (cand if len(cand) <= k else rnd.sample(cand, k)):
             jobs.append((name, data, "pair:%s+%s" % (a, b), others))
     res = impl.pmap(_case, jobs, procs=16)
